@@ -6,6 +6,8 @@ sys.path.insert(0, os.path.dirname(os.path.abspath(__file__)))
 import z3
 from symgo.driver import *
 from symgo import runner
+from symgo.runner import jsonable
+from symgo.interp import Inconclusive
 import specs
 
 ID = 'C01'
@@ -42,6 +44,7 @@ def jobs(tier):
                 js.append(dict(name='long_pre_%s_%d_%d' % (fixed[:6].decode() + str(len(fixed)), la, lb), kind='long', fixed=fixed, where='prefix', la=la, lb=lb))
                 if la and lb and (tier == 'thorough' or la + lb <= 3):
                     js.append(dict(name='long_suf_%s_%d_%d' % (fixed[:6].decode() + str(len(fixed)), la, lb), kind='long', fixed=fixed, where='suffix', la=la, lb=lb))
+    js.append(dict(name='canary_2_2', kind='canary', la=2, lb=2))
     js.sort(key=lambda j: -(j.get('la', 0) + j.get('lb', 0) + sum(j.get('lens', ())) + (4 if j['kind'] == 'long' else 0)))
     return js
 
@@ -50,6 +53,17 @@ LONG = [b'9' * 19, b'9' * 20, b'1844674407370955161', b'0' * 19, b'9' * 40]
 
 
 def run_job(env, job):
+    if job['kind'] == 'canary':
+        # vacuity guard: against a deliberately wrong oracle ('~' weighted like other punctuation) the same query
+        # must come back sat - otherwise the harness or the assumptions make the obligation vacuous
+        specs.CANARY = True
+        try:
+            r = run_job(env, dict(job, kind='rev'))
+        finally:
+            specs.CANARY = False
+        if not r['cex']:
+            raise Inconclusive('vacuity: the canary oracle was not refuted')
+        return dict(status='ok', cex=[], obligations=1, samples=[dict(obligation='canary: verrevcmp vs an oracle with a wrong weight for ~ must be refuted', result='sat as required, e.g. %r' % (jsonable(r['cex'][0]['args']),))], stats=r['stats'])
     if job['kind'] in ('rev', 'long'):
         la, lb = job['la'], job['lb']
         a, b = symstr('a', la), symstr('b', lb)
